@@ -1441,3 +1441,45 @@ Proof.
   - intros. apply tile_members_concat.
   - intros. apply repeat_list_concat.
 Qed.
+
+(** * Longer periods only fill the gaps *)
+
+Lemma dispatch_tiles_keeps v n T a : eternal v = false -> forall h h',
+  dispatch_tiles v n h T a = Ok h' ->
+  forall q arr, hget h q = Some arr -> hget h' q = Some arr.
+Proof.
+  intros He. induction T as [|t T IH]; intros h h' H q arr G; cbn [dispatch_tiles] in H.
+  - inversion H; subst. assumption.
+  - unfold holder_get, storage_key in H. rewrite He in H.
+    destruct (hget h t) eqn:Gt.
+    + eapply IH; eassumption.
+    + apply bind_ok in H. destruct H as (h1 & H1 & H2). eapply IH; [eassumption|].
+      unfold holder_set in H1. apply bind_ok in H1. destruct H1 as (a' & _ & H1).
+      rewrite He in H1. destruct (negb _ || _); [discriminate|]. inversion H1; subst h1.
+      rewrite hget_hput_other; [assumption|]. intros ->. congruence.
+Qed.
+
+(** An input for a variable with a set-input rule (divide or dispatch) never changes an array
+    that is already known: together with the flush order (shortest first), what is declared on
+    a longer period is distributed only over the sub-periods for which nothing more specific
+    was declared. *)
+Lemma longer_fills_gaps_only v n h P a h' :
+  v_rule v <> RNone ->
+  holder_set_input v n h P a = Ok h' ->
+  forall q arr, hget h q = Some arr -> hget h' q = Some arr.
+Proof.
+  intros Hr H q arr G. unfold holder_set_input in H.
+  destruct (unit_eqb (p_unit P) Eternity && negb (eternal v)); [discriminate|].
+  destruct (v_rule v) eqn:R; [contradiction| |].
+  - apply bind_ok in H. destruct H as (a' & _ & H).
+    destruct (eternal v) eqn:He; [discriminate|].
+    destruct (negb (numeric v)); [discriminate|].
+    apply bind_ok in H. destruct H as (T & _ & H).
+    unfold divide_tiles in H. apply bind_ok in H. destruct H as (rc & _ & H).
+    destruct (0 <? snd rc).
+    + apply bind_ok in H. destruct H as (d & _ & H). eapply dispatch_tiles_keeps; eassumption.
+    + destruct (forallb cell_is_zero (fst rc)); [|discriminate]. inversion H; subst. assumption.
+  - apply bind_ok in H. destruct H as (a' & _ & H).
+    destruct (eternal v) eqn:He; [discriminate|].
+    apply bind_ok in H. destruct H as (T & _ & H). eapply dispatch_tiles_keeps; eassumption.
+Qed.
